@@ -299,6 +299,27 @@ def gen_variants(rng, params, name, valid=True):
     return vs or None
 
 
+FIXED_BODIES = [
+    [{'cls': 'SinOsc', 'meth': 'ar', 'args': [{'p': 0, 'pick': 0}, {'k': 0}]},
+     {'cls': 'Out', 'meth': 'ar', 'args': [{'k': 0}, {'v': 0, 'single': 1}]}],
+    [{'cls': 'WhiteNoise', 'meth': 'ar', 'args': []},
+     {'cls': 'LPF', 'meth': 'ar', 'args': [{'v': 0, 'single': 1}, {'p': 0, 'pick': 0}]},
+     {'cls': 'Pan2', 'meth': 'ar', 'args': [{'v': 1, 'single': 1}, {'k': 0.25}, {'p': 1, 'pick': 0}]},
+     {'cls': 'Out', 'meth': 'ar', 'args': [{'k': 0}, {'v': 2}]}],
+    [{'cls': 'LocalBuf', 'meth': 'new', 'args': [{'k': 512}, {'k': 1}]},
+     {'cls': 'In', 'meth': 'ar', 'args': [{'k': 2}, {'k': 1}]},
+     {'cls': 'FFT', 'meth': 'kr', 'args': [{'v': 0, 'single': 1}, {'v': 1, 'single': 1}]},
+     {'cls': 'PV_MagAbove', 'meth': 'new', 'args': [{'v': 2, 'single': 1}, {'p': 0, 'pick': 0, 'need': 'notaudio'}]},
+     {'cls': 'IFFT', 'meth': 'ar', 'args': [{'v': 3, 'single': 1}]},
+     {'cls': 'Out', 'meth': 'ar', 'args': [{'p': 1, 'pick': 0, 'need': 'notaudio'}, {'v': 4, 'single': 1}]}],
+]
+
+
+def fixed_prog(rng, name='x'):
+    """A small graph that always compiles (the name / variant streams must not depend on the compiler)."""
+    return {'name': name, 'params': [], 'variants': None, 'body': json.loads(json.dumps(rng.choice(FIXED_BODIES))), 'base': False}
+
+
 def ascii_name(rng, n):
     return ''.join(rng.choice('abcdefghijklmnopqrstuvwxyzABCXYZ0123456789_-. ') for _ in range(n))
 
@@ -334,7 +355,7 @@ def make_cases(ctx):
         add('valid', prog)
 
     # (b) names: boundary lengths, non-ASCII
-    small = lambda: Gen(rng, rng.randint(1, 4), 2).program('x')
+    small = lambda: fixed_prog(rng)
     for n in [0, 1, 2, 31, 32, 33, 127, 128, 254, 255, 255, 256, 257, 300, 1000]:
         p = small()
         p['params'] = gen_params(rng, 2)
@@ -353,8 +374,7 @@ def make_cases(ctx):
     # (c) variants: valid boundary (full name exactly 32) and invalid ones (F19): the valid prefix is written,
     # the count must be the number of variants that follow
     def vprog():
-        g = Gen(rng, rng.randint(1, 5), 3)
-        p = g.program('v')
+        p = fixed_prog(rng, 'v')
         p['params'] = [{'name': 'freq', 'default': 440, 'annot': None}, {'name': 'amps', 'default': [0.1, 0.2, 0.3], 'annot': rng.choice([None, 'ir'])},
                        {'name': 'gate', 'default': 1, 'annot': None}]
         p['base'] = True
@@ -532,7 +552,8 @@ STAGE = {1: 'the real bytes do not parse completely as one SCgf-2 definition (mo
          3: 'the model writer applied to the parsed structure does not reproduce the real bytes',
          4: 'a width-first unit does not precede a unit created after it (or the creation list does not match the units)',
          5: 'the library\'s SynthDesc reader and the model\'s read_desc disagree',
-         6: 'the variants section differs from the resolved variants (or bytes were produced although a variant is invalid)'}
+         6: 'the variants section differs from the valid prefix of the declared variants',
+         7: 'the description read back from the bytes does not recover the declared parameters (name / slot / rate / default values / gate flag)'}
 
 SIGS = {'variant': 'C02:variant-count-without-variants', 'seq': 'C02:sequence-input-bytes'}
 
@@ -581,8 +602,9 @@ def correspond(ctx):
                 c.count('has-io-desc')
             if o['desc_exc']:
                 c.count('libreader-exc')
-            items.append('(check_case %s %s %s %s %s)' % (cb(b), c_order(o['order']), c_desc(o['desc']),
-                                                          c_names3(o['names3']), c_vsrc(k.get('variants'))))
+            decl = clist(['(%s, %s, %s, %s)' % (cb(n), cz(i), cz(r), clist(ws, cz)) for n, i, r, ws in o.get('decl', [])])
+            items.append('(check_case %s %s %s %s %s %s)' % (cb(b), c_order(o['order']), c_desc(o['desc']),
+                                                             c_names3(o['names3']), c_vsrc(k.get('variants')), decl))
             item_case.append(idx)
             if o['nunits'] >= 2:
                 c.nontriv((k['name'], o['bytes'][:4000]))
@@ -646,7 +668,7 @@ def correspond(ctx):
             'definition %r (%d units, %d bytes%s): %s; independent reader: %s' % (
                 k['name'], o['nunits'], len(b), (', variants=%r' % (k['variants'],)) if k.get('variants') else '',
                 STAGE.get(stage, 'stage %s' % stage), why or 'accepts the bytes'),
-            signature=sig, found_input=(stage in (1, 2, 4) or why is not None), theorem='scgf_roundtrip' if stage == 1 else None,
+            signature=sig, found_input=(stage in (1, 2, 4, 7) or why is not None), theorem='scgf_roundtrip' if stage == 1 else None,
             replay={'case': short(k), 'bytes': o['bytes'], 'stage': stage, 'order': o['order'], 'libdesc': o['desc'],
                     'libdesc_exc': o['desc_exc'], 'independent_reader': why}))
     for i in bad2[:12]:
